@@ -1939,3 +1939,15 @@ package engine
 //@   trusted
 //@   modifies nothing
 //@   ensures result != nil
+
+//@ ---------------------------------------------------------------- bagof/setof: every witness group becomes an alternative (C11)
+
+//@ func collectionOf$1
+//@   property C11
+//@   nosafety
+//@   trusted-frame
+//@   checks only maintains at-call at-call-missing
+//@   bind grp = append#3
+//@   loop 1 invariant true
+//@   loop 2 invariant true
+//@   loop 1 maintains[every-group-of-solutions-becomes-an-alternative] called(grp)
